@@ -1,0 +1,126 @@
+//go:build verif
+
+package mysql
+
+import (
+	"context"
+
+	"github.com/sirupsen/logrus"
+
+	"github.com/cossacklabs/acra/decryptor/base"
+	base_mysql "github.com/cossacklabs/acra/decryptor/mysql/base"
+	"github.com/cossacklabs/acra/encryptor/base/config"
+)
+
+// Verification hooks (C19, MySQL side): add-only, compiled only with -tags verif.
+
+// VerifField is a column definition as the harness sees it (the unexported bookkeeping of
+// ColumnDescription included).
+type VerifField struct {
+	Table, Name  string
+	Type         byte
+	OriginType   byte
+	Changed      bool
+	Charset      uint16
+	ColumnLength uint32
+	Flag         uint16
+	Decimal      uint8
+}
+
+func (f VerifField) verifDesc() *ColumnDescription {
+	return &ColumnDescription{changed: f.Changed, originType: base_mysql.Type(f.OriginType),
+		Table: []byte(f.Table), Name: []byte(f.Name), Type: base_mysql.Type(f.Type),
+		Charset: f.Charset, ColumnLength: f.ColumnLength, Flag: Flags(f.Flag), Decimal: f.Decimal}
+}
+
+func verifFieldOf(d *ColumnDescription) VerifField {
+	return VerifField{Table: string(d.Table), Name: string(d.Name), Type: byte(d.Type), OriginType: byte(d.originType),
+		Changed: d.changed, Charset: d.Charset, ColumnLength: d.ColumnLength, Flag: uint16(d.Flag), Decimal: d.Decimal}
+}
+
+// VerifUpdateFieldEncodedType runs updateFieldEncodedType on the column definition and returns it
+// together with the bytes ColumnDescription.Dump() would send to the client.
+func VerifUpdateFieldEncodedType(f VerifField, store config.TableSchemaStore) (VerifField, []byte) {
+	d := f.verifDesc()
+	updateFieldEncodedType(d, store)
+	return verifFieldOf(d), d.Dump()
+}
+
+// VerifProcessDataRow runs Handler.processBinaryDataRow / Handler.processTextDataRow on one data row with the
+// given subscribers (in this order) and returns the row for the client, the column definitions after the row
+// (a failed conversion rolls the type back) and their dumps.
+func VerifProcessDataRow(ctx context.Context, subs []base.DecryptionSubscriber, binaryProtocol bool, row []byte, fields []VerifField) ([]byte, []VerifField, [][]byte, error) {
+	logger := logrus.New()
+	logger.SetLevel(logrus.PanicLevel)
+	handler := &Handler{logger: logrus.NewEntry(logger), decryptionObserver: base.NewColumnDecryptionObserver()}
+	for _, s := range subs {
+		handler.decryptionObserver.SubscribeOnAllColumnsDecryption(s)
+	}
+	descs := make([]*ColumnDescription, len(fields))
+	for i, f := range fields {
+		descs[i] = f.verifDesc()
+	}
+	var out []byte
+	var err error
+	if binaryProtocol {
+		out, err = handler.processBinaryDataRow(ctx, row, descs)
+	} else {
+		out, err = handler.processTextDataRow(ctx, row, descs)
+	}
+	after := make([]VerifField, len(descs))
+	dumps := make([][]byte, len(descs))
+	for i, d := range descs {
+		after[i] = verifFieldOf(d)
+		dumps[i] = d.Dump()
+	}
+	return out, after, dumps, err
+}
+
+// VerifProcessDataRows runs the rows of ONE result set through process{Binary,Text}DataRow in order with the same
+// column definitions (as QueryResponseHandler does, which sends the definitions after the last row) and returns the
+// rows for the client and the final definitions with their dumps. It stops at the first error.
+func VerifProcessDataRows(ctx context.Context, subs []base.DecryptionSubscriber, binaryProtocol bool, rows [][]byte, fields []VerifField) ([][]byte, []VerifField, [][]byte, error) {
+	logger := logrus.New()
+	logger.SetLevel(logrus.PanicLevel)
+	handler := &Handler{logger: logrus.NewEntry(logger), decryptionObserver: base.NewColumnDecryptionObserver()}
+	for _, s := range subs {
+		handler.decryptionObserver.SubscribeOnAllColumnsDecryption(s)
+	}
+	descs := make([]*ColumnDescription, len(fields))
+	for i, f := range fields {
+		descs[i] = f.verifDesc()
+	}
+	var outs [][]byte
+	for _, row := range rows {
+		var out []byte
+		var err error
+		if binaryProtocol {
+			out, err = handler.processBinaryDataRow(ctx, row, descs)
+		} else {
+			out, err = handler.processTextDataRow(ctx, row, descs)
+		}
+		if err != nil {
+			return nil, nil, nil, err
+		}
+		outs = append(outs, out)
+	}
+	after := make([]VerifField, len(descs))
+	dumps := make([][]byte, len(descs))
+	for i, d := range descs {
+		after[i] = verifFieldOf(d)
+		dumps[i] = d.Dump()
+	}
+	return outs, after, dumps, nil
+}
+
+// VerifSpecificTypes returns the types for which updateFieldEncodedType drops the BLOB flag.
+func VerifSpecificTypes() []byte {
+	out := make([]byte, 0, len(specificTypes))
+	for _, t := range specificTypes {
+		out = append(out, byte(t))
+	}
+	return out
+}
+
+// VerifPacketMarkers returns the first bytes of OK and EOF packets as processBinaryDataRow tests them.
+func VerifPacketMarkers() (ok byte, eof byte) { return OkPacket, EOFPacket }
